@@ -11,7 +11,7 @@ from vfw.core import Violation, must_return
 from vfw.model import stencil as M
 
 PROPERTY = "C09"
-SIZES = {"quick": 3200, "thorough": 160000}
+SIZES = {"quick": 6400, "thorough": 160000}
 RULE = (
     "Hypothesis draws a layout (1-3 axes, any positions, 2-6 cells; thorough 2-9), an array on drawn positions "
     "with extra dims in drawn order, 1-3 operated axes in drawn order, `to` explicit or omitted, rule/fill at "
